@@ -489,4 +489,9 @@ def extra_phase(tier, base_seed, prop="C17"):
                 break
     shutil.rmtree(os.path.join(code, "Rules"), ignore_errors=True)
     out["hash_seeds_used"] = len(set(out["hash_seeds_used"]))
+    from .. import bigworld
+    big = bigworld.prince_phase(tier, base_seed)
+    out["violations"].extend(big.pop("violations", []))
+    out.update(big)
+    shutil.rmtree(os.path.join(code, "Rules"), ignore_errors=True)
     return out
